@@ -4,7 +4,7 @@ LIST_KINDS = {"aggregate", "annotation", "label", "reject", "link", "name"}
 SUBS = {"aggregate": [1, 2, 3], "cost": [0, 1, 3], "annotation": [0, 5, 15], "label": [0, 5, 15], "alerts": [0, 1], "reject": [0, 1, 2, 4, 8, 15],
         "link": [0, 3], "for": [1, 2, 3], "keep_firing_for": [1, 2, 3], "name": [0], "range_query": [0], "report": [0]}
 ALL = (1 << len(KINDS)) - 1
-ALGS = {0: "disabled", 1: "enabled", 2: "ruledisable", 3: "offline", 4: "clidisabled", 5: "clienabled"}
+ALGS = {0: "disabled", 1: "enabled", 2: "ruledisable", 3: "offline", 4: "clidisabled", 5: "clienabled", 6: "ruleenabledisable", 7: "ruledisableenable"}
 STATES = {0: "unmodified", 1: "added", 2: "modified", 3: "removed", 4: "renamed"}
 
 
@@ -46,6 +46,8 @@ def jobs(tier):
     for alg in ALGS:
         for k, kind in enumerate(KINDS):
             if alg == 4 and tier == "quick" and kind not in ("range_query", "report", "cost"):
+                continue
+            if alg in (6, 7) and tier == "quick" and kind not in ("alerts", "label", "range_query"):
                 continue  # --disabled expansion does not depend on the rule{} blocks: quick keeps the interesting ones
             out += A(kind, 1 << k, alg, 1, 3 if kind != "reject" else 15, 1, parts=(4 if alg == 4 else 1))
         out += A("none", 0, alg, 1, 0, 1, parts=(4 if alg == 4 else 1))
